@@ -13,24 +13,24 @@ CHECKS = {
             'Decides only the structural skeleton of delta_for_tx: R1a which action arm assigns cost base / gain (a split assigns neither, only a sale realises a gain); '
             'R1b required and forbidden input fields of each assigned value (a purchase\'s cost base depends on shares, price, rate, commission, commission rate, old '
             'cost base; a sale\'s remaining cost base does not depend on price or commission); R1c add for Buy/SfLA, subtract for RoC; R1d commission x commission '
-            'rate, price x transaction rate. The arithmetic itself (equality with exact average-cost results to 1e-9) is NOT decided. ' + PARTIAL % 'C01'),
+            'rate, price x transaction rate; R1e-R1g a named currency is never dropped, no clamping on the way to a cost base or gain, the validated commission (currency, rate) pair reaches the ledger unchanged. The arithmetic itself (equality with exact average-cost results to 1e-9) is NOT decided. ' + PARTIAL % 'C01'),
     'C03': ('other', 'edge-condition, insertion-index expression and loop-advance rules over the MIR of the adjustment mechanism',
             'R3a automatic SfLA rows only on the not-registered edge; R3b inserted at i+k+1 and the loop advances by one without skipping (each evaluated once, right '
             'after its sale); R3c none generated when the user supplied the loss; R3d each amount depends on the denied amount and the affiliate\'s ratio; R3e reported '
-            'gain = loss - denied amount. The conservation identity itself is NOT decided. ' + PARTIAL % 'C03'),
+            'gain = loss - denied amount; R3f only the window computation writes the over-applied marker; R3g an empty status is handed out only for an affiliate without a recorded status. The conservation identity itself is NOT decided. ' + PARTIAL % 'C03'),
     'C02': ('other', 'constant evaluation of the window bounds and tolerance + comparison normalisation on loop-exit edges + who-uses rule over MIR',
             'R2a window = settlement date -/+ Duration::days(30) from exactly two public functions; R2b bookkeeping and summary use only those (no private date '
             'arithmetic) on Tx.settlement_date; R2c both scan loops stop strictly outside the bounds (day +-30 inclusive); R2d the specified-loss tolerance '
-            'evaluates to 0.001, is strict, and applies only to un-forced values. ' + PARTIAL % 'C02'),
+            'evaluates to 0.001, is strict, and applies only to un-forced values; every path accepting a supplied loss passes the check or the force marker. ' + PARTIAL % 'C02'),
     'C04': ('other', 'ADT-construction closure + sibling field-use agreement over all AcbWriter impls + variant taint over MIR (+ compile-fail witnesses in thorough)',
             'R4a a ConstrainedDecimal (every balance/ACB/amount) can only be created by the checking constructor: all aggregates enumerated, no '
             'field store / &mut borrow / DerefMut-style impl / transmute / unsafe; R4b every output mode (text, CSV, web-UI serialiser) exports '
             'RenderTable.errors and the app pushes the bookkeeping error into it; R4c partial deltas of a rejected security never reach a gains or '
-            'summary calculator. ' + PARTIAL % 'C04'),
+            'summary calculator; R4d registered affiliates never acquire a cost base or gain; R4e the post-split balance tested for integrality has no factor that is already a rounded quotient. ' + PARTIAL % 'C04'),
     'C05': ('other', 'abstract interpretation in a sign lattice (per generic instantiation) of every ConstrainedDecimal try_from().unwrap(); def-use rule parser-result -> unwrap',
             'R5a each of the ~25 infallibility beliefs `ConstrainedDecimal::try_from(e).unwrap()` is justified by sign algebra including rounding-to-zero, '
             'per instantiation of the generic wrappers (two sites by reviewed relational argument whose premises are re-checked); R5b no parser result on '
-            'non-constant text reaches unwrap/expect, and every compiled regex pattern is constant-derived. ' + PARTIAL % 'C05'),
+            'non-constant text reaches unwrap/expect, and every compiled regex pattern is constant-derived; R5c no index is bounded only by the length of a different sequence; R5d no assertion demands exact equality of a Decimal expression computed on the spot. ' + PARTIAL % 'C05'),
     'C06': ('other', 'inter-procedural forward data-flow of rounded values to formatting sinks; parameter/field flow closure of the precision flag; field provenance of year keys',
             'R6a the result of every lossy Decimal operation reaches only string formatting (reviewed barriers with frozen caller sets for the '
             'effective-cent snap and spreadsheet floats); R6b the --print-full-values flag is only ever passed on to PrintHelper, whose field is '
@@ -38,7 +38,7 @@ CHECKS = {
     'C07': ('other', 'field-read set and edge-condition rule on Tx ordering; must-precede (dominator) sort-before-split; loop-carried definition of the read index; header normalisation provenance; index-stability taint',
             'R7a Tx order = (settlement_date, read_index) with read_index only on Equal; R7b sort dominates split_txs_by_security with no mutation in between '
             'and an order-preserving split; R7c the read index is carried across files and incremented per record; R7d header cells are lower-cased and '
-            'trimmed before lookup and column indices are positions in the unfiltered row. ' + PARTIAL % 'C07'),
+            'trimmed before lookup and column indices are positions in the unfiltered row; R7e nothing re-orders or drops the file list between the arguments and the readers. ' + PARTIAL % 'C07'),
     'C08': ('other', 'loop-exit rule on per-security loops + argument provenance + global-writer census over MIR',
             'R8a no early exit from any loop driven by a security-keyed map; R8b the bookkeeping entry point gets only that security\'s '
             'rows/opening position and no &mut state; R8c no process-global mutable state beyond three reviewed statics. ' + PARTIAL % 'C08'),
@@ -55,17 +55,17 @@ CHECKS = {
     'C11': ('other', 'constant-set agreement between writer and reader tables + per-column field mapping agreement + field coverage over MIR',
             'R11a export list = reader set minus deprecated "date"; R11b one writer arm per exported column; R11c the reader consumes every recognised column and '
             'maps each to the field the writer prints it from; R11d every optional column has an in-use trigger guarded by that same field; R11e every CsvTx / Tx / '
-            'specifics field is carried; R11f one CSV writer for transactions. ' + PARTIAL % 'C11'),
+            'specifics field is carried; R11f one CSV writer for transactions; R11g-R11j the writers format losslessly, a commission currency is exported whenever present, no rate is compared by value, table cells reach the record untransformed. ' + PARTIAL % 'C11'),
     'C12': ('other', 'inter-procedural field provenance of the look-up date + edge conditions (is_zero, is_some, == USD) + constant evaluation of the look-back range',
             'R12a the rate look-up date derives from CsvTx.trade_date on every chain; R12b a rate from the per-year map is returned only on the non-zero edge; '
-            'R12c the look-back is 7 iterations of minus one day ending in Err; R12d the loader runs only without an explicit rate and for USD. ' + PARTIAL % 'C12'),
-    'C13': ('other', 'who-may-call chain of the remote download + edge conditions (contains_key / force_download) + must-follow insert',
-            'R13a one download site reached through one chain guarded by !contains_key(year) and followed by memoising the year (<= 1 download per year per run); '
+            'R12c the look-back is 7 iterations of minus one day ending in Err; R12d the loader runs only without an explicit rate and for USD; R12e the per-day map only holds loaded data; R12f the published-rate parser never compares a rate by size. ' + PARTIAL % 'C12'),
+    'C13': ('other', 'who-may-call chain of the remote download + symbolic enumeration of the guard paths (memoised / has-date / downloaded-this-run) + must-follow insert',
+            'R13a one download site reached through one chain, entered only when the year is not memoised or not downloaded in this run, and followed by memoising the year (<= 1 download per year per run); '
             'R13b cached rates are returned only if the cache contains the requested date or the year was downloaded in this run; R13c the cache is not read when '
-            'forced; R-TS no product caller of test hooks. The stale-memo defect (DESIGN.md section 7) is outside these clauses. ' + PARTIAL % 'C13'),
+            'forced; R13d the per-run memo answers a date only if it contains it or the year was downloaded in this run; R13e nothing lossy is reachable from the cache writers; R-TS no product caller of test hooks. ' + PARTIAL % 'C13'),
     'C14': ('proof', 'path taint of the live cache file name to file-system sinks + must-precede (dominator) check of create/flush/fsync/rename in write_rates',
             'The live rates-<year>.csv name reaches only read-only sinks and the destination of rename(); write_rates writes a temp file, '
-            'flushes, fsyncs and renames in that order on every non-error path and discards no Result on the way. Under POSIX rename '
+            'flushes, fsyncs and renames in that order on every non-error path and discards no Result on the way; the temp file starts empty and both names are built from the same arguments in every helper. Under POSIX rename '
             'atomicity no prefix of a new cache file is ever observable under the live name, for every crash point.'),
     'C15': ('other', 'assignment census of the Split arm, dependency of the new balance, store census of the global-split expansion, scan-loop case coverage',
             'R15a the Split arm assigns neither cost base nor gain; R15b the new balance depends on the ratio and the old balance; R15c global-split expansion clones '
@@ -73,21 +73,21 @@ CHECKS = {
             'decided. ' + PARTIAL % 'C15'),
     'C16': ('other', 'must-precede (dominator + data dependence) of parse_initial_status before processing in each front end; use-set rule on the opening-position map',
             'R16a every front end starts processing only after, and with the Ok payload of, parse_initial_status; R16b the opening-position map is only queried with '
-            'get(&current security), whose result goes to that security\'s bookkeeping call. ' + PARTIAL % 'C16'),
+            'get(&current security), whose result goes to that security\'s bookkeeping call; R16c the key is the symbol as given; R16d the looked-up position is handed on unfiltered; R16e exactly three fields. ' + PARTIAL % 'C16'),
     'C17': ('other', 'key provenance, loop must-pass-through, operator census and comparison normalisation over the cost tracker',
             'R17a days keyed by Tx.settlement_date and the observed figure is post_status.total_acb; R17b only the default non-registered affiliate counts and every '
             'skipped transaction is listed as ignored; R17c same-day observations combine by max and the row total is updated as total - old + new; R17d a day is filed '
-            'under its own year and replaced only for a strictly larger total. Which value is carried forward between days (a known defect) is NOT decided. ' + PARTIAL % 'C17'),
+            'under its own year and replaced only for a strictly larger total; R17e-R17h nothing is recorded before the skip filters, the carried figure is the closing cost and not the day maximum, every delta reaches the cost pass, the opening cost is recorded once. ' + PARTIAL % 'C17'),
     'C18': ('other', 'index-stability taint (length-changing adaptor before enumerate) + who-may-index rules over MIR',
             'R18a header-name->index maps are built from positions in the unfiltered header row; R18b the converter reads cells only by '
-            'header name; R18c rows are indexed only with the stored index. ' + PARTIAL % 'C18'),
+            'header name; R18c rows are indexed only with the stored index; R18d a foreign-currency trade row always gets its implicit FX leg; R18e no binary-expansion float conversion. ' + PARTIAL % 'C18'),
     'C19': ('other', 'constant + comparison normalisation of the candidate window, pool-consumption data flow, guarded-Ok rule, loop must-pass-through over the matcher',
             'R19a candidates are trades with benefit date <= trade date <= benefit date + 5 days; R19b matched trades are removed from the very pool that later '
             'candidates and the manual trades come from; R19c Ok only when no matching error was recorded; R19d one row per benefit and per left-over trade, pushed '
-            'unconditionally, then sorted. The text parsers and the share-count combination search are NOT decided. ' + PARTIAL % 'C19'),
+            'unconditionally, then sorted; R19e-R19g a benefit with sold shares is always matched, the returned set comes from the filtered candidates, every parsed entry is collected. The text parsers and the share-count combination search are NOT decided. ' + PARTIAL % 'C19'),
     'C20': ('other', 'sanitiser must-pass-through (provenance) + grow-only guard (edge condition) rules over MIR',
             'R20a every page-group list reaching the optimised page iterator comes from safe_page_chunks_with_remainder*; R20b the '
-            'loaded-page cache is only resized under len() < new_len and never truncated. ' + PARTIAL % 'C20'),
+            'loaded-page cache is only resized under len() < new_len and never truncated; R20c-R20f a popped page is yielded, requested pages are loaded and queued unfiltered, the iterator ends only when groups are exhausted or loading failed, every page is tested for the table marker. ' + PARTIAL % 'C20'),
 }
 
 NOT_APPLICABLE = {
